@@ -2,14 +2,15 @@
 EXTENDS Multi
 MC(name, kinds, fl, multi, lv, m) == [name |-> name, kinds |-> kinds, flevel |-> fl, multi |-> multi, evlevels |-> lv, maxev |-> m]
 Debug == 0  Warn == 2  Error == 3  Fatal == 4
-Lv == {Debug, Warn, Error}
+ViaPanic == 105      \* the entry point Panic(): PanicLevel with a completion callback (see Multi.tla Real)
+Lv == {Debug, Warn, Error, ViaPanic}
 QuickConfs == { MC("single-level", <<"level">>, <<0>>, FALSE, Lv, 3),
                 MC("single-plain", <<"plain">>, <<0>>, FALSE, Lv, 3),
                 MC("multi1", <<"level">>, <<0>>, TRUE, Lv, 3),
                 MC("multi-lp", <<"level", "plain">>, <<0, 0>>, TRUE, Lv, 2),
                 MC("multi-fl", <<"filtered", "level">>, <<Warn, 0>>, TRUE, Lv, 2),
                 MC("multi-lf", <<"level", "filtered">>, <<0, Error>>, TRUE, Lv, 2),
-                MC("multi-pfl", <<"plain", "filtered", "level">>, <<0, Warn, 0>>, TRUE, {Debug, Error}, 2),
+                MC("multi-pfl", <<"plain", "filtered", "level">>, <<0, Warn, 0>>, TRUE, {Debug, Error, ViaPanic}, 2),
                 MC("multi-ffl", <<"filtered", "filtered", "level">>, <<Fatal, Debug, 0>>, TRUE, {Debug, Warn}, 2) }
 ThoroughConfs == { MC("single-level", <<"level">>, <<0>>, FALSE, Lv, 4),
                 MC("single-plain", <<"plain">>, <<0>>, FALSE, Lv, 4),
